@@ -25,7 +25,7 @@ fi
 miss=0; total=0
 for id in "${list[@]}"; do
   if [ -f mutants/$id.patch ]; then patch=mutants/$id.patch; checks=${OWNER[$id]:-$(cat mutants/$id.owner 2>/dev/null)}
-  else patch=seeded/$id/patch.diff; checks=$(python3 -c "import json;print(json.load(open('seeded/$id/meta.json'))['property'])"); fi
+  else patch=seeded/$id/patch.diff; checks=$(python3 -c "import json;m=json.load(open('seeded/$id/meta.json'));print(m.get('reported_by_property') or m['property'])"); fi
   [ -z "$checks" ] && { echo "?? $id: no owning check recorded"; continue; }
   git -C $REPO apply $VERIF/$patch || { echo "?? $id: patch does not apply"; continue; }
   for c in $checks; do
